@@ -5,6 +5,7 @@
 From Coq Require Import String List Bool NArith Arith.
 Import ListNotations.
 From BT Require Import Base.Bytes Model.GenTypes Model.VT Model.Renderer Model.EvLoop Proof.EvLoopProofs.
+From BT Require Model.Skel Model.SkelTie.
 From BTGen Require Dispatch.
 Open Scope string_scope.
 Open Scope list_scope.
@@ -14,7 +15,10 @@ Open Scope list_scope.
 Theorem C16_tie :
   Dispatch.pre_switch = ["filter"; "nilcheck"] /\
   Dispatch.post_switch = ["handleMessages"; "Update"; "cmds<-:ctx"; "write(View)"] /\
-  calls_known Dispatch.dispatch = true /\ Dispatch.unsupported = [].
+  calls_known Dispatch.dispatch = true /\ Dispatch.unsupported = [] /\
+  (* the cases of the type switch are the known ones; the two sources of messages that are not Send callers - the Exec
+     callback and the signal handler - deliver through Send (their bodies are the reviewed ones) *)
+  SkelTie.dispatch_kinds_ok = true /\ SkelTie.shapes_ok_for ["exec"; "handleSignals"; "Send"; "handleCommands"] = true.
 Proof. vm_compute. repeat split. Qed.
 Print Assumptions C16_tie.
 
